@@ -204,7 +204,7 @@ pub fn run(run: &Run) {
          {{x = k, x += k, x--, return x | assert(x), var a = x, b = a + 1}}; each as function and template, with and without a `var x = 0;` prologue, every `for` in three header forms (`var i = 0` / assignment to an existing variable / `var i = 0, j = i + 1`); for each \
          program every decision string with loops unrolled <= {unroll} times per entry, walked in \
          lock-step on the generator's syntax and on the real CFG (before and after SSA); \
-         (thorough: also the full sweep <= 5 statements with loops unrolled <= 2 times); non-trivial = program with more than one path"
+         (thorough: also the full sweep <= 5 statements with loops unrolled <= 2 times); 50 single-statement forms (every infix and prefix operator, element copies inside one array, self-assignment); non-trivial = program with more than one path"
     ));
     run.set_extra("unroll_bound", json!(unroll));
     let mut sweeps = vec![("full", full, 1, 2), ("deep", deep, 1, 2), ("atoms", atoms, MARKER_ATOM_KINDS, 2)];
@@ -221,6 +221,38 @@ pub fn run(run: &Run) {
         let t0 = std::time::Instant::now();
         sweep(run, name, &skels, max, unroll, kinds);
         eprintln!("[C13] sweep {name} <= {max} statements, unroll {unroll}: {} skeletons, {:.1}s", skels.len(), t0.elapsed().as_secs_f64());
+    }
+    // Statement forms: one function per form; the statement met on the graph must read exactly as
+    // written (every operator keeps its meaning, element copies inside one array are kept, ...).
+    {
+        use crate::space::prog::{Atom, Def, DefKind, Ev, Node};
+        let mut forms: Vec<String> = Vec::new();
+        for op in ["*", "/", "+", "-", "**", "\\", "%", "<<", ">>", "<=", ">=", "<", ">", "==", "!=", "||", "&&", "|", "&", "^"] {
+            forms.push(format!("x = n {op} 3"));
+            forms.push(format!("x = (n {op} x) {op} 2"));
+        }
+        for op in ["-", "!", "~"] {
+            forms.push(format!("x = {op}n"));
+        }
+        for f in ["x = x", "a[1] = a[0]", "a[n] = a[n - 1]", "a[0] = a[0] + 1", "x = n ? x : 2", "x = a[x]", "a[x] = x"] {
+            forms.push(f.to_string());
+        }
+        run.set_extra("statement_forms", json!(forms.len()));
+        for (i, form) in forms.iter().enumerate() {
+            let body = vec![
+                Node::Atom(Atom::decl_var_init("x", "1")),
+                Node::Atom(Atom::new("var a[4] = [1, 2, 3, 4]", vec![Ev::Decl("var a[4]".into()), Ev::Assign("a = [1, 2, 3, 4]".into())])),
+                Node::Atom(Atom::new(form, vec![Ev::Assign(form.clone())])),
+                Node::Atom(Atom::ret("x + a[1]")),
+            ];
+            let def = Def { kind: DefKind::Function, name: "f".into(), params: vec!["n".into()], body };
+            let case = json!({"kind": "statement-form", "index": i, "form": form});
+            run.watch(&case);
+            let (violations, _) = check_def(&def, 2, &case, 100);
+            run.eval(1);
+            run.nontrivial(1);
+            run.violations(violations);
+        }
     }
     // Route B: the graph the real runner builds from a file (with and without main component),
     // every skeleton of <= 3 statements.
